@@ -443,7 +443,7 @@ def prop_structure(spec, rec):
 
 def subchecks(tier):
     return [
-        Given("frontier", cases(), prop, quick=320, thorough=30000, floors={"near_rating": 0.2, "at_rating": 0.1, "linear": 0.1, "real_evse": 0.12, "lenient_query_first": 0.1, "deprecated_alias_entry": 0.02, "two_period_schedule_equal_totals": 0.1, "huge_transformer_capacity": 0.03, "horizon_over_4096_periods": 0.04, "constraint_table_edited_by_caller": 0.1, "slowly_creeping_schedule": 0.08, "constraint_re_entered_after_a_query": 0.1}, jobs_quick=8),
+        Given("frontier", cases(), prop, quick=320, thorough=30000, floors={"near_rating": 0.2, "at_rating": 0.1, "linear": 0.1, "real_evse": 0.12, "lenient_query_first": 0.1, "deprecated_alias_entry": 0.02, "two_period_schedule_equal_totals": 0.1, "huge_transformer_capacity": 0.03, "horizon_over_4096_periods": 0.04, "constraint_table_edited_by_caller": 0.1, "slowly_creeping_schedule": 0.03, "constraint_re_entered_after_a_query": 0.04}, jobs_quick=8),
         Exhaustive("structure", structure_items, prop_structure, jobs_quick=2),
     ]
 
